@@ -89,7 +89,7 @@ type MyNode struct {
 	InstantRepl                      bool // replication progress is applied whenever the node is looked at
 	ReplMonTS                        string
 	ReplMonDelay                     int64
-	conns                            map[net.Conn]bool
+	conns                            map[net.Conn]bool // value = a statement is in flight on this connection
 	Conns                            int // open connections (leak accounting)
 	TotalConns                       int
 	Killed                           []int
@@ -141,8 +141,10 @@ func (w *World) Kill(host string) {
 	var cs []net.Conn
 	if n != nil {
 		n.Alive = false
-		for c := range n.conns {
-			cs = append(cs, c)
+		for c, busy := range n.conns {
+			if !busy { // a statement in flight is answered first; the connection is cut right after (see serve)
+				cs = append(cs, c)
+			}
 		}
 	}
 	w.logEv("env", host, "kill", "", "ok")
@@ -190,6 +192,9 @@ func (w *World) dial(ctx context.Context, addr string) (net.Conn, error) {
 	n := w.Nodes[host]
 	if n == nil || !n.Alive {
 		w.Mu.Unlock()
+		// a refusal takes a round trip; without it performChangeMaster's status loop (app.go:2101, `continue`
+		// without a sleep) would spin for ever on frozen virtual time
+		time.Sleep(5 * time.Millisecond)
 		return nil, &net.OpError{Op: "dial", Net: "tcp", Err: fmt.Errorf("connection refused (fake %s)", host)}
 	}
 	n.Conns++
@@ -330,6 +335,8 @@ func (w *World) serve(n *MyNode, c net.Conn) {
 	// the reader goroutine lets a hanging statement notice that the client went away
 	pkts := make(chan []byte)
 	done := make(chan struct{})
+	quit := make(chan struct{}) // closed when this serving goroutine returns
+	defer close(quit)
 	go func() {
 		defer close(done)
 		for {
@@ -339,7 +346,7 @@ func (w *World) serve(n *MyNode, c net.Conn) {
 			}
 			select {
 			case pkts <- b:
-			case <-done:
+			case <-quit:
 				return
 			}
 		}
@@ -363,7 +370,15 @@ func (w *World) serve(n *MyNode, c net.Conn) {
 			}
 		case 0x03: // COM_QUERY
 			q := strings.Join(strings.Fields(string(b[1:])), " ")
-			if !w.query(n, p, q, done) {
+			w.Mu.Lock()
+			n.conns[c] = true
+			w.Mu.Unlock()
+			okq := w.query(n, p, q, done)
+			w.Mu.Lock()
+			n.conns[c] = false
+			dead := !n.Alive
+			w.Mu.Unlock()
+			if !okq || dead {
 				return
 			}
 		default:
